@@ -339,17 +339,24 @@ class DoneStep(Step):
 
     parameters: run_id, name, all: [names of every step of the compartment]
     """
-    defaults = {'run_id': 0, 'all': []}
+    defaults = {'run_id': 0, 'all': [], 'spawn': False}
+
+    def __init__(self, parameters=None):
+        super().__init__(parameters)
+        self.n_spawned = 0
 
     def ports_schema(self):
         rid = self.parameters['run_id']
-        return {
+        schema = {
             'done': {n: {'_default': -1, '_emit': True,
                          '_updater': recording_updater(rid, 'done:' + n, 'set')}
                      for n in self.parameters['all']},
             'clock': {'tick': {'_default': 0, '_emit': True,
                                '_updater': recording_updater(rid, 'tick')}},
         }
+        if self.parameters['spawn']:
+            schema['pool'] = {'*': {'_default': 0, '_emit': True}}
+        return schema
 
     def next_update(self, timestep, states):
         ctx = CTX.get(self.parameters['run_id'])
@@ -357,7 +364,13 @@ class DoneStep(Step):
         if ctx is not None:
             ctx.rec('step', self.name, ctx.now(), timestep, tick,
                     dict(states['done']), None)
-        return {'done': {self.name: tick}}
+        upd = {'done': {self.name: tick}}
+        if self.parameters['spawn'] and tick >= 1:
+            # a structural update issued from inside a step layer
+            self.n_spawned += 1
+            upd['pool'] = {'_add': [{'key': 'n%d' % self.n_spawned,
+                                     'state': tick}]}
+        return upd
 
 
 # ------------------------------------------------------------------ wiring kit
